@@ -140,24 +140,11 @@ Definition C31_full_statement : Prop :=
   | _, _ => False
   end.
 
-(* texts as code points:  "#define X "  "/*\n*/"  "1\n"  *)
-Definition w_s1 : text := [35;100;101;102;105;110;101;32;88;32].
-Definition w_f  : text := [47;42;10;42;47].
-Definition w_s2 : text := [49;10].
-
-Lemma w_f_filler : filler w_f.
-Proof. apply (f_block [10] 1%nat). reflexivity. Qed.
-
-Lemma w_s1_closed : closed w_s1.
-Proof. repeat (apply cl_plain; [discriminate|]). constructor. Qed.
-
+(* witness texts (C31/Proofs3.v): w_s1 = "#define X ", w_f = "/*\n*/", w_s2 = "1\n" *)
 (* known finding define_multiline_comment: the macro X becomes empty and "1" stays in the text *)
 (* [tie-preprocess] [tie-comment] [tie-words] *)
 Theorem C31_full_statement_refuted : ~ C31_full_statement.
-Proof.
-  intros H. specialize (H w_s1 w_f w_s2 w_s1_closed w_f_filler eq_refl).
-  vm_compute in H. destruct H as [H _]. discriminate H.
-Qed.
+Proof. exact full_statement_refuted. Qed.
 Print Assumptions C31_full_statement_refuted.
 
 (* known finding comment_on_directive_line:  "/**/# 5"  is refused by _put_back_line_directives
